@@ -3,6 +3,7 @@
 // @also C07
 // @engine B
 // @entry vfh_C08_requests
+// @shared_state_watch
 // @tier Q
 // @reach requests.done
 // @funcs Phreeqc::dump_entities; Phreeqc::delete_entities; PHRQ_io::dump_open
